@@ -62,6 +62,15 @@ package websocket
 //@   ensures[appended] result == nil ==> (forall i int :: 0 <= i && i < len(data) ==> gOut[old(gOutLen) + i] == data[i])
 //@   ensures[kept] forall i int :: 0 <= i && i < old(gOutLen) ==> gOut[i] == old(gOut[i])
 
+// Calls on the underlying connection that do not touch the message stream; any other,
+// unspecified method of it (a read limit, compression, custom handlers, ...) is not covered
+// by the assumed contracts above and leaves the stream model unknown.
+//@ extern github.com/gorilla/websocket.(*Conn).LocalAddr
+//@ extern github.com/gorilla/websocket.(*Conn).RemoteAddr
+//@ extern github.com/gorilla/websocket.(*Conn).SetReadDeadline
+//@ extern github.com/gorilla/websocket.(*Conn).SetWriteDeadline
+//@ havoc-on github.com/gorilla/websocket.(*Conn). $gLost $gBroken
+
 //@ nonnil Conn.wsConn
 //@ immutable Conn.wsConn
 
@@ -74,6 +83,7 @@ package websocket
 //@   serves C07
 //@   requires[conn] wsConn != nil
 //@   ensures[fresh] result != nil && fresh(result) && result.wsConn == wsConn && result.reader == nil
+//@   ensures[stream-untouched] gLost == old(gLost) && gBroken == old(gBroken)
 
 //@ contract (*Conn).Read
 //@   serves C07
